@@ -109,7 +109,7 @@ def u_b_sorting_hillclimb(ctx):
 
 def _hillclimb(ctx, target, sorting):
     import time
-    t_unit = time.time()
+    t_unit = time.process_time()          # CPU seconds: the budget below counts work, not waiting for a core
     sols = []
 
     class Soln:
@@ -144,7 +144,7 @@ def _hillclimb(ctx, target, sorting):
             def evalfn(self, x, *a, **kw):
                 key = tuple(sorted(int(v) for v in x))
                 calls.append(key)
-                if time.time() - t_unit > (150 if ctx.tier == "quick" else 900):
+                if time.process_time() - t_unit > (150 if ctx.tier == "quick" else 900):
                     raise sym.Unsupported("hill-climber unit exceeded its time budget (path explosion on this source)")
                 if len(calls) > (len(subsets) + 2) * (k * (n - k) + 1) + 2 + (n if sorting else 0):
                     # every accepted exchange strictly improves (cv, score), so a descent visits each subset at most once
